@@ -280,6 +280,11 @@ fn show_cmd_err(e: &CommandError) -> String {
 fn raw_of_spec(spec: &str) -> RawCommand {
     let mut parts = spec.split('.');
     let name = parts.next().unwrap_or("");
+    if name == "big" {
+        // big.<hex of a decimal n>: echo with one argument of n bytes (see DriverLoop.parse_spec)
+        let n: usize = parts.next().and_then(unhex_str).and_then(|d| d.parse().ok()).unwrap_or(0);
+        return RawCommand::new("echo").argument("x".repeat(n));
+    }
     let mut c = RawCommand::new(name);
     for a in parts {
         c = c.argument(unhex_str(a).unwrap_or_default());
